@@ -1,6 +1,8 @@
 // Harness message type: `Raw<N>` is an N-byte opaque message that can travel over any channel.
+// Deserialization is fallible, like that of field elements and padded bit arrays: the pattern "every byte 0xFD" is
+// not a valid message (`payload()` never produces it), so that faults can plant an undecodable record.
 
-use std::{convert::Infallible, fmt::Debug};
+use std::fmt::Debug;
 
 use generic_array::{ArrayLength, GenericArray};
 
@@ -47,19 +49,34 @@ pub fn payload(tag: u64, index: u64, n: usize) -> Vec<u8> {
         }
         k += 1;
     }
+    if out.iter().all(|b| *b == POISON) {
+        let last = out.len() - 1;
+        out[last] = POISON - 1;
+    }
     out
 }
 
+pub const POISON: u8 = 0xFD;
+
+#[derive(Debug, Clone, PartialEq, Eq)]
+pub struct Undecodable;
+impl std::fmt::Display for Undecodable {
+    fn fmt(&self, f: &mut std::fmt::Formatter<'_>) -> std::fmt::Result {
+        write!(f, "undecodable harness message (poison pattern)")
+    }
+}
+impl std::error::Error for Undecodable {}
+
 impl<N: ArrayLength> Serializable for Raw<N> {
     type Size = N;
-    type DeserializationError = Infallible;
+    type DeserializationError = Undecodable;
 
     fn serialize(&self, buf: &mut GenericArray<u8, Self::Size>) {
         buf.copy_from_slice(self.0.as_slice());
     }
 
     fn deserialize(buf: &GenericArray<u8, Self::Size>) -> Result<Self, Self::DeserializationError> {
-        Ok(Self(buf.clone()))
+        if buf.iter().all(|b| *b == POISON) { Err(Undecodable) } else { Ok(Self(buf.clone())) }
     }
 }
 
